@@ -256,7 +256,7 @@ fn check_grammar(ctx: &Ctx, mode: Mode, g: &RefGrammar, n: usize, only_input: Op
 
 fn grammar_space(ctx: &Ctx, mode: Mode) -> (Vec<RefGrammar>, Vec<(String, usize)>) {
     let lists = if ctx.quick() {
-        universe_list(&[(2, 2, 2, 2, 6)])
+        universe_list(&[(2, 2, 2, 2, 6), (2, 2, 2, 3, 5), (3, 2, 1, 3, 5), (2, 3, 2, 2, 6), (3, 2, 2, 2, 5)])
     } else {
         universe_list(&[(2, 2, 2, 2, 6), (2, 3, 2, 2, 6), (2, 2, 3, 2, 6), (3, 2, 2, 2, 6), (2, 2, 2, 3, 7)])
     };
